@@ -83,6 +83,7 @@ pub open spec fn view_all<T>(r: Result<VecDeque<T>, BBIReadError>) -> Result<Opt
 // skipped.  ASSUMED: may fail, may return anything, may set known_offset to anything; ONE logged call with exactly
 // its arguments and its result.  `std::vec::IntoIter<T>` -> `VecDeque<T>` (remaining elements, front first).
 //@extract fn bigtools/src/bbi/bigwigread.rs get_block_values
+//@rule R16
 //@skipbody
 //@sub /get_block_values<R: BBIFileRead>/ => get_block_values min=1
 //@sub /&mut BigWigRead<R>/ => &mut VFileW min=1
@@ -93,6 +94,7 @@ pub open spec fn view_all<T>(r: Result<VecDeque<T>, BBIReadError>) -> Result<Opt
         final(bigwig).log() == old(bigwig).log().push(Call { block, chrom, start, end, result: view_opt(r) }),
 //@end
 //@extract fn bigtools/src/bbi/bigbedread.rs get_block_entries
+//@rule R16
 //@skipbody
 //@sub /get_block_entries<R: BBIFileRead>/ => get_block_entries min=1
 //@sub /&mut BigBedRead<R>/ => &mut VFileB min=1
@@ -103,6 +105,7 @@ pub open spec fn view_all<T>(r: Result<VecDeque<T>, BBIReadError>) -> Result<Opt
         final(bigbed).log() == old(bigbed).log().push(Call { block, chrom: expected_chrom, start, end, result: view_all(r) }),
 //@end
 //@extract fn bigtools/src/bbi/bbiread.rs get_zoom_block_values
+//@rule R16
 //@skipbody
 //@sub /pub\(crate\) fn/ => fn
 //@sub /get_zoom_block_values<B: BBIRead>/ => get_zoom_block_values min=1
@@ -197,6 +200,7 @@ impl BigWigIntervalIter {
 // IntoIter::next -> VecDeque::pop_front; `.borrow_mut()` on the owned handle -> `&mut`; the decoder call is bound
 // to a local before the `match` (same evaluation order) so that the ghost bookkeeping can be spliced after it.
 //@extract method bigtools/src/bbi/bigwigread.rs next "Iterator for BigWigIntervalIter"
+//@rule R16
 //@sub /Option<Self::Item>/ => Option<Result<Value, BBIReadError>> min=1
 //@sub /(\w)\.next\(\)/ => \1.pop_front() min=0
 //@sub /(\w)\.next_back\(\)/ => \1.pop_back() min=0
@@ -392,6 +396,7 @@ impl BigBedIntervalIter {
 // IntoIter::next -> VecDeque::pop_front; `.borrow_mut()` on the owned handle -> `&mut`; the decoder call is bound
 // to a local before the `match` (same evaluation order) so that the ghost bookkeeping can be spliced after it.
 //@extract method bigtools/src/bbi/bigbedread.rs next "Iterator for BigBedIntervalIter"
+//@rule R16
 //@sub /Option<Self::Item>/ => Option<Result<BedEntry, BBIReadError>> min=1
 //@sub /(\w)\.next\(\)/ => \1.pop_front() min=0
 //@sub /(\w)\.next_back\(\)/ => \1.pop_back() min=0
@@ -588,6 +593,7 @@ impl ZoomIntervalIter {
 // IntoIter::next -> VecDeque::pop_front; `.borrow_mut()` on the owned handle -> `&mut`; the decoder call is bound
 // to a local before the `match` (same evaluation order) so that the ghost bookkeeping can be spliced after it.
 //@extract method bigtools/src/bbi/bbiread.rs next "Iterator for ZoomIntervalIter"
+//@rule R16
 //@sub /Option<Self::Item>/ => Option<Result<ZoomRecord, BBIReadError>> min=1
 //@sub /(\w)\.next\(\)/ => \1.pop_front() min=0
 //@sub /(\w)\.next_back\(\)/ => \1.pop_back() min=0
